@@ -688,6 +688,16 @@ class ExchangeRate:
         self._unit_multiple = mult
         self._term_amount = Decimal(term_amount * mult / unit_multiple, 6)
 
+    @classmethod
+    def _identity(cls, currency: Currency) -> ExchangeRate:
+        # Rate 1 from a currency to itself (can't be created via __init__,
+        # which rejects identical currencies).
+        rate = cls.__new__(cls)
+        rate._unit_currency = rate._term_currency = currency
+        rate._unit_multiple = ONE
+        rate._term_amount = ONE
+        return rate
+
     @property
     def unit_currency(self) -> Currency:
         """Currency to be converted from, aka base currency."""
@@ -1129,7 +1139,8 @@ class MoneyConverter:
                 effective for `effective_date`, `None` if there is no such rate
         """
         if unit_currency is term_currency:
-            return ExchangeRate(unit_currency, ONE, term_currency, ONE)
+            # noinspection PyProtectedMember
+            return ExchangeRate._identity(unit_currency)
         base_currency = self.base_currency
         if base_currency == unit_currency:
             try:
